@@ -1,4 +1,3 @@
-(* WIP *)
 (* Model of the four bundled storage hooks (hooks/storage/{badger,pebble,bolt,redis}/*.go) and of
    the record types of hooks/storage/storage.go.
 
@@ -15,6 +14,7 @@
 
    The model is of the tree *after* the repairs recorded in findings.d/C22.json / C20.json
    (Findings/FixedC22.v keeps the pre-fix behaviour).  No proofs in this file. *)
+From Coq Require Import Permutation.
 From MV Require Import Base.Val Storage.Kv.
 Open Scope N_scope.
 
@@ -266,6 +266,16 @@ Definition erase_msg_key (m : msg_rec) : msg_rec :=
 Definition erase_keys (r : readback) : readback :=
   mkReadback (rb_clients r) (map erase_sub_key (rb_subs r)) (map erase_msg_key (rb_inflight r))
              (map erase_msg_key (rb_retained r)) (rb_sys r).
+
+(* C22: two read-backs are the same clients, subscriptions, in-flight messages, retained messages and
+   system info, up to ordering (and up to the record ID of subscriptions and messages, which is the
+   back end's own storage key and is read by nothing in the broker) *)
+Definition rb_equiv (r1 r2 : readback) : Prop :=
+  Permutation (rb_clients r1) (rb_clients r2) /\
+  Permutation (map erase_sub_key (rb_subs r1)) (map erase_sub_key (rb_subs r2)) /\
+  Permutation (map erase_msg_key (rb_inflight r1)) (map erase_msg_key (rb_inflight r2)) /\
+  Permutation (map erase_msg_key (rb_retained r1)) (map erase_msg_key (rb_retained r2)) /\
+  rb_sys r1 = rb_sys r2.
 
 (* some key written by the events is longer than what bbolt or badger accepts *)
 Definition wr_key_len (w : wr) : N :=
